@@ -204,7 +204,7 @@ func VH_C18_flowDefault() {
 	n := c18Node(act)
 	after := &vSimpleNode{act: "end"}
 	flow := NewFlow(n)
-	if vNondet[bool]("defaultEdgeAddedAfterAFirstRun") {
+	if vParam("late", 1) > 0 && vNondet[bool]("defaultEdgeAddedAfterAFirstRun") {
 		// the flow has already run (with another connection on the node) when the default
 		// connection is made: it is followed by the next run all the same
 		flow.Connect(n, "other", &vSimpleNode{act: "end"})
